@@ -32,9 +32,15 @@ THEOREMS = CLOSURE_THEOREMS + [
     "PauLie.C19.two_blocks", "PauLie.C19.Maj.clo_maj", "PauLie.C19.Maj.card_clo_maj",
     "PauLie.Comp.clo_append", "PauLie.Comp.clo_inter", "PauLie.Comp.card_clo_append", "PauLie.Comp.clo_flatten",
     "PauLie.Comp.card_clo_flatten",
+    "PauLie.C19.peel_induction", "PauLie.C19.clo_iff_of_peel", "PauLie.C19.card_of_peel",
+    "PauLie.C19.C19_a16", "PauLie.C19.C19_a11", "PauLie.C19.C19_a15", "PauLie.C19.C19_b4", "PauLie.C19.C19_dimension_more",
+    "PauLie.C19.C19_a13", "PauLie.C19.C19_a20", "PauLie.C19.C19_a7", "PauLie.C19.exc_spec",
+    "PauLie.C19.clo_a16", "PauLie.C19.clo_a11", "PauLie.C19.clo_a15", "PauLie.C19.clo_b4", "PauLie.C19.clo_a13",
+    "PauLie.C19.clo_a20", "PauLie.C19.clo_a7", "PauLie.C19.count_qY", "PauLie.C19.count_tX0", "PauLie.C19.count_T13",
+    "PauLie.C19.count_T7",
 ]
 IMPORTS = CLOSURE_IMPORTS + ["PauLieVerif.Proofs.TieTwoLocal", "PauLieVerif.Properties.C19", "PauLieVerif.Properties.C19More",
-    "PauLieVerif.Properties.C19Rows", "PauLieVerif.Properties.C19Su"]
+    "PauLieVerif.Properties.C19Rows", "PauLieVerif.Properties.C19Su", "PauLieVerif.Properties.C19Rest"]
 
 FAMILIES = ["a%d" % i for i in range(23)] + ["b%d" % i for i in range(5)]
 KNOWN_N3 = ("a11", "a12", "a17")
